@@ -166,7 +166,8 @@ func (c *trCtx) forStmt(x *ast.ForStmt, k trK) trLines {
 	} else {
 		fuel = c.fuelOf(x.Cond)
 	}
-	if len(c.pre) > 0 {
+	fuelPre := c.takePre() // a bound that can panic (cap of a slice whose capacity is unknown) is evaluated before the loop, as its condition is (trans_units_tablerender.go)
+	if len(fuelPre) > 0 && !trFuelMayPanic[c.fn.pkg.path+"."+c.fn.leanName] {
 		trFail(x.Cond.Pos(), "a loop bound that can panic is outside the subset")
 	}
 	tuple, ttyp := c.tupleOf(state)
@@ -226,17 +227,18 @@ func (c *trCtx) forStmt(x *ast.ForStmt, k trK) trLines {
 		if len(state) == 1 {
 			st = c.names[state[0]]
 		}
-		return trBind(st, call, c.unpack(st, state, k()))
+		return trWrapPre(fuelPre, trBind(st, call, c.unpack(st, state, k())))
 	}
 	r := c.fresh("r")
 	next := c.unpack(st, state, k())
 	out := trLines{"match " + r + " with", "| Flow.ret v => " + c.retRaw("v", x.Pos())[0], "| Flow.next " + st + " =>"}
 	out = append(out, next.indent(2)...)
-	return trBind(r, call, out)
+	return trWrapPre(fuelPre, trBind(r, call, out))
 }
 
 
 func (c *trCtx) rangeStmt(x *ast.RangeStmt, k trK) trLines {
+	c.rangeSelfWrite(x) // a store into the slice ranged over, at another index than the key: rejected (trans_units_tablerender.go)
 	tx := c.typeOf(x.X)
 	var elemTy types.Type
 	switch u := tx.Underlying().(type) {
